@@ -310,7 +310,8 @@ theorem lexTextLoop_sat {n : Int} {l0 : Lexer} : ∀ (k : Nat) (l : Lexer) (last
         simp only [e2]
         obtain ⟨l3, e3, hl3, hp3, hs3, hw3⟩ := emit_ex .tEOF (l := l2) (by lx) (by lx) (by lx)
         simp only [e3]
-        exact Sat.ofSome Post.nil
+        obtain ⟨it, hb, ht⟩ := emit_items e3
+        exact Sat.ofSome (Post.nil ⟨it, hb, Or.inl ht⟩)
       · rename_i hE
         simp only [eof] at hE
         have hrem : l1.rem < l.rem := by simp only [Lexer.rem]; lx
